@@ -7,7 +7,7 @@ pub fn stub_v0_deser(_b: &[u8]) -> Result<v0::DeserializeFormat, Deserialization
 }
 
 fn header_dispatch<const N: usize>() {
-    let buf: [u8; N] = kani::any();
+    let buf: [u8; N] = crate::verif_shim::any_bytes::<N>();
     let len: usize = kani::any();
     kani::assume(len <= N);
     let r = DeserializeFormat::deserialize(&buf[..len]);
